@@ -188,9 +188,22 @@ class Session:
     pass
 
 
-def _scales(ref, h):
+def _scales(ref, h, s=None, d=None, v=None):
+    """Round-off scales.  Besides the reference solution they include the
+    largest displacement / velocity the session has *ever* shown: add-ons (and
+    redone steps) can cancel most of a column, and the round-off left behind is
+    relative to what was there before, not to the small remainder (found by the
+    2.3 M-run thorough batch: 21 runs with errors of 3e-10..2e-9 relative to a
+    remainder 1e3..1e6 times smaller than the pre-add-on value)."""
     sd = float(np.max(np.abs(ref.d))) if ref.d.size else 0.0
-    sv = max(float(np.max(np.abs(ref.v))) if ref.v.size else 0.0, sd / h)
+    sv = float(np.max(np.abs(ref.v))) if ref.v.size else 0.0
+    if s is not None:
+        if d is not None and d.size:
+            sd = max(sd, float(np.max(np.abs(d))))
+            sv = max(sv, float(np.max(np.abs(v))))
+        s.Sd = sd = max(sd, getattr(s, "Sd", 0.0))
+        s.Sv = sv = max(sv, getattr(s, "Sv", 0.0))
+    sv = max(sv, sd / h)
     sa = max(float(np.max(np.abs(ref.a))) if ref.a.size else 0.0, sv / h)
     return max(sd, 1e-300), max(sv, 1e-300), max(sa, 1e-300)
 
@@ -356,7 +369,9 @@ def check_after_send(s, where):
     if not np.array_equal(got_f, s.Fm[:, : L + 1]):
         raise Violation("force_history_wrong", where + ":_force", session=s.id, last=L, ops=s.ops[-6:])
     ref = s.ref.tsolve(s.Fm[:, : L + 1].copy(), **{k: (None if v is None else (v.copy() if hasattr(v, "copy") else v)) for k, v in s.kw.items()})
-    sd, sv, sa = _scales(ref, sysd.h)
+    fin_d = s.d[:, : L + 1][np.isfinite(s.d[:, : L + 1])]
+    fin_v = s.v[:, : L + 1][np.isfinite(s.v[:, : L + 1])]
+    sd, sv, sa = _scales(ref, sysd.h, s, fin_d, fin_v)
     for name, got, exp, sc in (("d", s.d[:, : L + 1], ref.d, sd), ("v", s.v[:, : L + 1], ref.v, sv)):
         why, err = _cmp(got, exp, s.tol, sc)
         if why is not None:
@@ -479,7 +494,7 @@ def finalize(M, s, st, tr):
     with _Sut("finalize", session=s.id, solver=where):
         sol = s.ts.finalize(get_force=True)
     ref = s.ref.tsolve(s.Fm.copy(), **{k: (None if v is None else (v.copy() if hasattr(v, "copy") else v)) for k, v in s.kw.items()})
-    sd, sv, sa = _scales(ref, s.sys.h)
+    sd, sv, sa = _scales(ref, s.sys.h, s)
     for name, sc in (("d", sd), ("v", sv), ("a", sa)):
         if not hasattr(sol, name):
             raise Violation("final_field_missing", f"{where}:finalize.{name}")
